@@ -103,10 +103,10 @@ def run(rep, tier):
         p = wd / ("intvec_%d.ndjson" % i)
         p.write_text("".join(chunk))
         parts.append(p)
-    nrandom = 300 if quick else 8000
+    nrandom = 300 if quick else 6000
     jobs = [("c20", ["com", parts[i], wd / ("com_%d.ndjson" % i), seed(), nrandom // 2, maxnest, 10, 1 + i * 2000000], None)
             for i in range(2)]
-    nsem, nvcg, nrnd = (110, 36, 10) if quick else (2000, 500, 300)
+    nsem, nvcg, nrnd = (110, 36, 10) if quick else (1500, 360, 200)
     mutants = MUTANTS[:1] if quick else MUTANTS
     totals = {}
     verdicts = {}
